@@ -139,21 +139,20 @@ func FindPathFromModel(path string, rwPaths ReadWritePathMap, exact bool) (bool,
 				path, len(rwPaths))
 	}
 
-	if strings.HasSuffix(path, "]") { //Ends with index
+	// Not an exact match: the path must address a node above some RW path - at a path element boundary
+	// and with the key names of the model, wherever they stand
+	anonymizedPath := AnonymizePathIndices(path)
+	if strings.HasSuffix(path, "]") { // Ends with index: answer with the key leaf of the last index
 		if indices, _ := ExtractIndexNames(path); len(indices) > 0 {
-			// Add on the last index
-			searchPathNoIndices = fmt.Sprintf("%s/%s", searchPathNoIndices, indices[len(indices)-1])
+			if rwPath, isKeyLeaf := rwPaths[fmt.Sprintf("%s/%s", anonymizedPath, indices[len(indices)-1])]; isKeyLeaf {
+				return false, &rwPath, nil
+			}
 		}
 	}
-
-	// First search through the RW paths
 	for modelPath, modelElem := range rwPaths {
-		pathNoIndices := RemovePathIndices(modelPath)
-		// Find a short path
-		if exact && pathNoIndices == searchPathNoIndices {
-			return false, &modelElem, nil
-		} else if !exact && strings.HasPrefix(pathNoIndices, searchPathNoIndices) {
-			return false, &modelElem, nil // returns the first thing it finds that matches the prefix
+		if IsDescendantPath(modelPath, anonymizedPath) {
+			modelElem := modelElem
+			return false, &modelElem, nil // returns the first thing it finds beneath the path
 		}
 	}
 
